@@ -79,6 +79,9 @@ func loadEngine(repo string) (*Engine, error) {
 	eng.indexGlobals()
 	eng.indexFieldWrites()
 	eng.synthesizeImplViews()
+	if err := eng.checkGhostNames(); err != nil {
+		return nil, err
+	}
 	if dumpFields {
 		for _, t := range eng.namedTypes {
 			if st, ok := t.Underlying().(*types.Struct); ok {
@@ -797,4 +800,59 @@ func (e *Engine) synthesizeImplViews() {
 			e.specs.Order = append(e.specs.Order, vkey)
 		}
 	}
+}
+
+// checkGhostNames: a ghost variable must not share its name with a parameter, result or local of a function under contract - in a
+// clause of that function the name would denote the Go variable at some program points and the ghost at others.
+func (e *Engine) checkGhostNames() error {
+	for key, ct := range e.specs.Contracts {
+		if ct.Kind != "func" {
+			continue
+		}
+		base := key
+		if i := strings.IndexAny(base, "@"); i >= 0 {
+			base = base[:i]
+		}
+		fi := e.funcs[base]
+		if fi == nil || fi.Body == nil {
+			continue
+		}
+		// only names that the contract's clauses actually mention can be confused
+		var text strings.Builder
+		add := func(cs []*Clause) {
+			for _, c := range cs {
+				text.WriteString(c.Src + "\n")
+			}
+		}
+		add(ct.Requires)
+		add(ct.Ensures)
+		add(ct.Exits)
+		add(ct.Assumes)
+		add(ct.AtCuts)
+		for _, bs := range ct.Befores {
+			add(bs)
+		}
+		for _, lp := range ct.Loops {
+			add(lp.Invariants)
+		}
+		mentioned := func(name string) bool {
+			re := regexp.MustCompile(`(^|[^A-Za-z0-9_.])` + regexp.QuoteMeta(name) + `([^A-Za-z0-9_]|$)`)
+			return re.MatchString(text.String())
+		}
+		var clash string
+		ast.Inspect(fi.Body, func(n ast.Node) bool {
+			if id, ok := n.(*ast.Ident); ok && clash == "" {
+				if _, isDef := e.info.Defs[id].(*types.Var); isDef {
+					if g, isGhost := e.specs.Ghosts[id.Name]; isGhost && !strings.HasPrefix(strings.TrimSpace(g.Type), "fn(") && mentioned(id.Name) {
+						clash = id.Name
+					}
+				}
+			}
+			return clash == ""
+		})
+		if clash != "" {
+			return fmt.Errorf("ghost %q has the name of a variable of %s (under contract): rename the ghost", clash, base)
+		}
+	}
+	return nil
 }
